@@ -1,12 +1,17 @@
 // C31 — terminal input decoding is total and lossless for plain text.
 // M: MCTermReader (Record = FALSE): the decoder's state graph over the per-phase alphabet:
-//    Total (all 256 bytes), NeverBlocksMidSequence, BlockOnlyAtBoundary; MCTermText: PlainTextLossless.
+//
+//	Total (all 256 bytes), NeverBlocksMidSequence, BlockOnlyAtBoundary; MCTermText: PlainTextLossless.
+//
 // G: MCTermReader (Record = TRUE): every byte string of length L over the per-phase alphabet with
-//    the Timeout action taken or not wherever enabled, and MCTermText's texts / directed scripts:
-//    each behaviour (bytes, timeouts, prescribed request class and emission per read) is fed to the
-//    real readEvent through a fake ReadByteWithTimeout that records the requested timeout.
+//
+//	the Timeout action taken or not wherever enabled, and MCTermText's texts / directed scripts:
+//	each behaviour (bytes, timeouts, prescribed request class and emission per read) is fed to the
+//	real readEvent through a fake ReadByteWithTimeout that records the requested timeout.
+//
 // V: random biased byte streams with random late delivery, and random plain UTF-8 text, recorded
-//    read by read and judged by the stateful TLC walker TraceTermReader.
+//
+//	read by read and judged by the stateful TLC walker TraceTermReader.
 package main
 
 import (
